@@ -244,8 +244,22 @@ func vqsWatch(r *verifrt.R, c *verifrt.Case, p *vqsProgress, limit time.Duration
 					continue
 				}
 				what, _ := p.what.Load().(string)
-				key := vqsPanicKey("stuck-running", g)
-				c.Violation(strings.Replace(key, "panic:", "", 1), "no progress for %v while a goroutine is spinning in golang.org/x/net code; sub-case in flight: %s\n%s", limit, what, g)
+				// key: the outermost implementation function on the spinning stack (the one the
+				// harness called), which does not depend on where the sample caught the loop
+				entry := "?"
+				for _, ln := range strings.Split(g, "\n") {
+					if !strings.HasPrefix(ln, "golang.org/x/net/") {
+						continue
+					}
+					if strings.Contains(ln, "verif") || strings.Contains(ln, "Verif") || strings.Contains(ln, ".v3") || strings.Contains(ln, ".vqs") {
+						break
+					}
+					entry = strings.TrimPrefix(ln, "golang.org/x/net/")
+					if j := strings.LastIndex(entry, "("); j > 0 {
+						entry = entry[:j]
+					}
+				}
+				c.Violation("stuck-running@"+entry, "no progress for %v while a goroutine is spinning in golang.org/x/net code; sub-case in flight: %s\n%s", limit, what, g)
 				r.ExitIfAbnormal()
 				r.Finish()
 				os.Exit(1)
@@ -254,4 +268,15 @@ func vqsWatch(r *verifrt.R, c *verifrt.Case, p *vqsProgress, limit time.Duration
 		}
 	}()
 	return func() { close(quit) }
+}
+
+// vqsBubbleTrouble reports a panic that escaped the per-sub-case recover, or the bubble's own
+// failure (deadlock), for the batch.
+func vqsBubbleTrouble(c *verifrt.Case, inner, outer string) {
+	if inner != "" {
+		first, _, _ := strings.Cut(inner, "\n")
+		c.Violation(vqsPanicKey(first, inner), "panic inside the bubble of %s/%d: %s", c.Stream, c.Index, inner)
+	} else if outer != "" {
+		c.Violation("bubble-failed", "synctest bubble of %s/%d failed: %s", c.Stream, c.Index, outer)
+	}
 }
